@@ -164,19 +164,16 @@ def targetOutsideRoot (dir : List String) (isAbs : Bool) (tgt : List String) : B
 inductive Loaded | skipped | loadError | node (key : List String)
 deriving DecidableEq, Repr
 
-/-- pathtree key of a stored absolute `targetPath` string given as segments after the first "/":
-`getNode` cuts ONE leading "/" and splits the rest on "/" ("" → the root, key []) -/
-def keyOfAbs (afterSlash : List String) : List String :=
-  if afterSlash = [""] then [] else afterSlash
-
 /-- `handleSymlink`: the key that the created node's `targetPath` addresses, or why no node is made.
-`linkSegs` = the link name split on "/" (an absolute name therefore starts with ""). -/
+`linkSegs` = the link name split on "/" (an absolute name therefore starts with ""). The stored
+`targetPath` is `path.Clean` of the absolute name, or of `path.Join(path.Dir(vp), name)` for a relative
+one — a rooted clean path, whose pathtree key is its list of segments ("/" → the root, key []). -/
 def handleSymlink (dir : List String) (linkSegs : List String) : Loaded :=
   if linkSegs = [""] then .loadError                      -- "symlink header has no target path"
   else
     let isAbs := linkSegs.head? = some ""
     if targetOutsideRoot dir isAbs linkSegs then .skipped  -- ErrSymlinkPointsOutsideRoot: entry skipped
-    else if isAbs then .node (keyOfAbs linkSegs.tail)      -- absolute targets are stored as written
+    else if isAbs then .node (cleanAbs linkSegs)           -- path.Clean(target)
     else .node (cleanAbs (dir ++ linkSegs))                -- path.Clean(path.Join(path.Dir(vp), target))
 
 end Scalibr.Symlink
